@@ -10,8 +10,10 @@ package main
 //   - as term macros `gc_<name>` that expand to the literal (or to the translated expression) at the place where
 //     lean/Mamba/Model/Codec.lean uses them — the model is therefore re-elaborated with the values the source has NOW,
 //     and every proof in Lemmas/ and Props/ is re-checked against them.
-// A constant whose shape is not recognised is never guessed: it is listed in `Gen.Codec.notFound`, `allFound` becomes
-// false and its macro expands to the placeholder 0 (theorem `gen_constants_found` in Props then fails).
+// An item whose shape is not recognised falls back to its hand-written default (c07defaults): the model is then what it
+// was before regeneration and only the correspondence ties that item to the code; the item is listed in
+// `Gen.Codec.notRegenerated` and in facts.json (`not_regenerated:CodecConsts.lean`); no theorem depends on that list.
+// Copies of one constant that are recognised but DISAGREE are reported through the proofs (see pick).
 // Structural fingerprints of the modelled functions go to Gen/CodecFingerprints.lean, which nothing imports
 // (information only, not a proof obligation). Capacity arguments of make(...) are not modelled and not extracted.
 
@@ -40,7 +42,71 @@ func (g *c07gen) miss(name string) {
 	g.missing = append(g.missing, name)
 }
 
-// nat emits a numeric constant: def + macro. ok=false -> placeholder 0 and the name goes to notFound.
+// c07defaults: the hand-written value of every item (what the model contained before regeneration). It is emitted when
+// the shape of the source is NOT recognised (the item is then listed in notRegenerated and only the correspondence
+// ties it to the code, as before regeneration). A recognised shape always emits what the source says.
+var c07defaults = map[string]string{
+	"g6dMagic": "[62, 62, 103, 114, 97, 112, 104, 54, 60, 60]", "g6dMagicLen": "10", "g6dLo": "63", "g6dHi": "126",
+	"g6dMark0": "126", "g6dMark1": "126", "g6dLen4": "4", "g6dLen8": "8", "g6dI1": "1", "g6dI4": "4", "g6dI8": "8",
+	"g6dN1": "Codec.bsub $c0 63",
+	"g6dN4": "(Codec.bsub $c1 63 <<< 12) + (Codec.bsub $c2 63 <<< 6) + Codec.bsub $c3 63",
+	"g6dN8": "(Codec.bsub $c2 63 <<< 30) + (Codec.bsub $c3 63 <<< 24) + (Codec.bsub $c4 63 <<< 18) + (Codec.bsub $c5 63 <<< 12) + (Codec.bsub $c6 63 <<< 6) + Codec.bsub $c7 63",
+	"g6dMaxN": "4294967296", "g6dLenPad": "5", "g6dLenGroup": "6", "g6dLenCmp": "$a > $b",
+	"g6dBitGroup": "6", "g6dBitOff": "63", "g6dBitTop": "5",
+	"g6eT0": "1", "g6eT1": "62", "g6eT4": "258047", "g6eT8": "68719476735", "g6eOff0": "63",
+	"g6eHdr1": c07defaultHdr("$pre", 1), "g6eHdr4": c07defaultHdr("$pre", 4), "g6eHdr8": c07defaultHdr("$pre", 8),
+	"g6eTop": "5", "g6eGroup": "6", "g6eOff": "63",
+	"s6dMagic": "[62, 62, 115, 112, 97, 114, 115, 101, 54, 60, 60]", "s6dMagicLen": "11", "s6dLo": "63", "s6dHi": "126",
+	"s6dColon": "58", "s6dColonLen": "1",
+	"s6dMark0": "126", "s6dMark1": "126", "s6dLen4": "4", "s6dLen8": "8", "s6dI1": "1", "s6dI4": "4", "s6dI8": "8",
+	"s6dN1": "Codec.bsub $c0 63",
+	"s6dN4": "(Codec.bsub $c1 63 <<< 12) + (Codec.bsub $c2 63 <<< 6) + Codec.bsub $c3 63",
+	"s6dN8": "(Codec.bsub $c2 63 <<< 30) + (Codec.bsub $c3 63 <<< 24) + (Codec.bsub $c4 63 <<< 18) + (Codec.bsub $c5 63 <<< 12) + (Codec.bsub $c6 63 <<< 6) + Codec.bsub $c7 63",
+	"s6dKWidth": "64", "s6dKSub": "1", "s6dNumBitsGroup": "6", "s6dBitGroup": "6", "s6dBitOff": "63", "s6dBitTop": "5",
+	"s6eT0": "1", "s6eT1": "62", "s6eT4": "258047", "s6eT8": "68719476735", "s6eOff0": "63", "s6eColon": "58",
+	"s6eHdr1": c07defaultHdr("#[58]", 1), "s6eHdr4": c07defaultHdr("#[58]", 4), "s6eHdr8": c07defaultHdr("#[58]", 8),
+	"s6eTop": "5", "s6eGroup": "6", "s6eOff": "63", "s6eKWidth": "64", "s6eKSub": "1",
+	"s6ePadSet": "($n = 2 || $n = 4 || $n = 8 || $n = 16)", "s6ePadCmp": "$a ≥ $b",
+	"s6ePadGroup": "6", "s6ePadOne": "1", "s6ePadEnd": "6",
+	"mcMax": "255",
+}
+
+// c07defaultHdr: the hand-written header expression of the k-byte form, pushed onto start
+func c07defaultHdr(start string, k int) string {
+	push := func(acc, e string) string { return "((" + acc + ").push " + e + ")" }
+	field := func(sh int) string {
+		if sh == 0 {
+			return "(Codec.badd (($n &&& 63) % 256) 63)"
+		}
+		return fmt.Sprintf("(Codec.badd ((($n >>> %d) &&& 63) %% 256) 63)", sh)
+	}
+	acc := start
+	switch k {
+	case 1:
+		return push(acc, "(($n + 63) % 256)")
+	case 4:
+		acc = push(acc, "126")
+		for _, sh := range []int{12, 6, 0} {
+			acc = push(acc, field(sh))
+		}
+	case 8:
+		acc = push(push(acc, "126"), "126")
+		for _, sh := range []int{30, 24, 18, 12, 6, 0} {
+			acc = push(acc, field(sh))
+		}
+	}
+	return acc
+}
+
+func (g *c07gen) dflt(name string) string {
+	d, ok := c07defaults[name]
+	if !ok {
+		die("c07: no default for %s", name)
+	}
+	return d
+}
+
+// nat emits a numeric constant: def + macro. ok=false -> the default, and the name goes to notRegenerated.
 func (g *c07gen) nat(name string, v uint64, ok bool, doc string) {
 	if g.names[name] {
 		die("c07: constant %s emitted twice", name)
@@ -48,22 +114,41 @@ func (g *c07gen) nat(name string, v uint64, ok bool, doc string) {
 	g.names[name] = true
 	if !ok {
 		g.miss(name)
-		v = 0
+		d, err := strconv.ParseUint(g.dflt(name), 10, 64)
+		if err != nil {
+			die("c07: default of %s is not a number", name)
+		}
+		v = d
 	}
 	fmt.Fprintf(&g.defs, "/-- %s -/\ndef %s : Nat := %d\n", doc, name, v)
 	fmt.Fprintf(&g.macros, "macro \"gc_%s\" : term => `(%d)\n", name, v)
 }
 
-// macro emits a term macro with parameters.
-func (g *c07gen) macro(name string, params []string, body string, ok bool, doc string, placeholder string) {
+// pick: the value to emit for an item that occurs several times in the source. Not found at all -> (0, false) (default).
+// All occurrences equal -> that value. Occurrences that DISAGREE are a recognised shape with a real inconsistency: emit
+// one that differs from the hand-written value so that the proofs report it.
+func (g *c07gen) pick(name string, vs []uint64) (uint64, bool) {
+	if len(vs) == 0 {
+		return 0, false
+	}
+	d, _ := strconv.ParseUint(g.dflt(name), 10, 64)
+	for _, v := range vs {
+		if v != d {
+			return v, true
+		}
+	}
+	return vs[0], true
+}
+
+// macro emits a term macro with parameters. ok=false -> the default body, and the name goes to notRegenerated.
+func (g *c07gen) macro(name string, params []string, body string, ok bool, doc string) {
 	if g.names[name] {
 		die("c07: macro %s emitted twice", name)
 	}
 	g.names[name] = true
 	if !ok {
-		// never guess: a well-typed placeholder keeps the model compiling; the name goes to notFound, the proofs break
 		g.miss(name)
-		body = placeholder
+		body = g.dflt(name)
 	}
 	var sig strings.Builder
 	fmt.Fprintf(&sig, "macro \"gc_%s\"", name)
@@ -396,9 +481,9 @@ func (g *c07gen) encoder(fnName, p string, sparse bool) {
 			body, ok = c07hdrBlock(bodies[i+1], n, sparse)
 		}
 		if sparse {
-			g.macro(p+nm, []string{"n"}, body, ok, fnName+": ':' and the header bytes of the "+nm[3:]+"-byte form", "#[]")
+			g.macro(p+nm, []string{"n"}, body, ok, fnName+": ':' and the header bytes of the "+nm[3:]+"-byte form")
 		} else {
-			g.macro(p+nm, []string{"pre", "n"}, body, ok, fnName+": the header bytes of the "+nm[3:]+"-byte form pushed onto pre", "$pre")
+			g.macro(p+nm, []string{"pre", "n"}, body, ok, fnName+": the header bytes of the "+nm[3:]+"-byte form pushed onto pre")
 		}
 	}
 	// bit writer: 1 << uint(TOP - idx); idx == GROUP; append(s, b+OFF)
@@ -447,9 +532,14 @@ func (g *c07gen) encoder(fnName, p string, sparse bool) {
 		}
 		return 0
 	}
-	g.nat(p+"Top", first(tops), c07allEq(tops), fnName+": bit position of the first bit of a group (1 << uint(Top - idx)), all occurrences")
-	g.nat(p+"Group", first(groups), c07allEq(groups), fnName+": number of bits per byte (idx == Group flushes), all occurrences")
-	g.nat(p+"Off", first(offs), c07allEq(offs), fnName+": offset added to a 6-bit group (append(s, b+Off)), all occurrences")
+	// the three belong together: recognised only if the whole bit writer is there
+	writer := len(tops) > 0 && len(groups) > 0 && len(offs) > 0
+	top, _ := g.pick(p+"Top", tops)
+	grp, _ := g.pick(p+"Group", groups)
+	off, _ := g.pick(p+"Off", offs)
+	g.nat(p+"Top", top, writer, fnName+": bit position of the first bit of a group (1 << uint(Top - idx)), all occurrences")
+	g.nat(p+"Group", grp, writer, fnName+": number of bits per byte (idx == Group flushes), all occurrences")
+	g.nat(p+"Off", off, writer, fnName+": offset added to a 6-bit group (append(s, b+Off)), all occurrences")
 	if !sparse {
 		return
 	}
@@ -515,8 +605,8 @@ func (g *c07gen) encoder(fnName, p string, sparse bool) {
 		strs[i] = fmt.Sprint(v)
 	}
 	fmt.Fprintf(&g.defs, "/-- %s: the values of n for which the special padding rule applies -/\ndef %sPadSet : List Nat := [%s]\n", fnName, p, strings.Join(strs, ", "))
-	g.macro(p+"PadSet", []string{"n"}, "("+strings.Join(parts, " || ")+")", len(set) > 0, fnName+": n is one of the values of the padding rule", "false")
-	g.macro(p+"PadCmp", []string{"a", "b"}, cmp, cmpOK, fnName+": the comparison `bits left in the byte` ? `k+1` of the padding rule", "False")
+	g.macro(p+"PadSet", []string{"n"}, "("+strings.Join(parts, " || ")+")", len(set) > 0, fnName+": n is one of the values of the padding rule")
+	g.macro(p+"PadCmp", []string{"a", "b"}, cmp, cmpOK, fnName+": the comparison `bits left in the byte` ? `k+1` of the padding rule")
 	fmt.Fprintf(&g.defs, "/-- %s: the operator of the padding comparison -/\ndef %sPadCmpOp : String := %q\n", fnName, p, strings.TrimSpace(strings.NewReplacer("$a", "", "$b", "").Replace(cmp)))
 	g.nat(p+"PadGroup", pg, pgOK, fnName+": bits per byte in the padding comparison (PadGroup - idx)")
 	g.nat(p+"PadOne", one, oneOK, fnName+": the 1 of `k + 1` in the padding comparison")
@@ -627,8 +717,12 @@ func (g *c07gen) decoder(fnName, p string, sparse bool) {
 	for i := 0; i < len(magic); i++ {
 		bytes[i] = fmt.Sprint(magic[i])
 	}
-	fmt.Fprintf(&g.defs, "/-- %s: the optional header string -/\ndef %sMagicStr : String := %q\n", fnName, p, magic)
-	g.macro(p+"Magic", nil, "["+strings.Join(bytes, ", ")+"]", magicOK && len(magic) > 0, fnName+": the bytes of the optional header", "[]")
+	magicStr := magic
+	if !(magicOK && len(magic) > 0) {
+		magicStr = map[string]string{"g6d": ">>graph6<<", "s6d": ">>sparse6<<"}[p]
+	}
+	fmt.Fprintf(&g.defs, "/-- %s: the optional header string -/\ndef %sMagicStr : String := %q\n", fnName, p, magicStr)
+	g.macro(p+"Magic", nil, "["+strings.Join(bytes, ", ")+"]", magicOK && len(magic) > 0, fnName+": the bytes of the optional header")
 	g.nat(p+"MagicLen", mlen, mlenOK, fnName+": number of bytes dropped when the optional header is present")
 	// byte range: s[i] < LO || s[i] > HI inside a for loop
 	lo, loOK, hi, hiOK := uint64(0), false, uint64(0), false
@@ -786,7 +880,7 @@ func (g *c07gen) decoder(fnName, p string, sparse bool) {
 				}
 			}
 		}
-		g.macro(p+nm, params, body, ok, fnName+": the value of n read from a "+nm[1:]+"-byte size header (c_k = s[k])", "0")
+		g.macro(p+nm, params, body, ok, fnName+": the value of n read from a "+nm[1:]+"-byte size header (c_k = s[k])")
 		v, okv := uint64(0), false
 		if len(iVals) == 3 {
 			v, okv = iVals[i], true
@@ -864,7 +958,7 @@ func (g *c07gen) decoder(fnName, p string, sparse bool) {
 		})
 		g.nat(p+"LenPad", pad, padOK, fnName+": rounding term of the length check (bits + LenPad) / LenGroup")
 		g.nat(p+"LenGroup", grp, grpOK, fnName+": bits per byte in the length check")
-		g.macro(p+"LenCmp", []string{"a", "b"}, cmp, cmpOK2, fnName+": `bytes needed` ? len(s) gives the error \"too short\"", "False")
+		g.macro(p+"LenCmp", []string{"a", "b"}, cmp, cmpOK2, fnName+": `bytes needed` ? len(s) gives the error \"too short\"")
 		// edges[j] = ((s[i+j/G] - OFF) & (1 << uint(TOP-(j%G)))) >> uint(TOP-(j%G))
 		var ls []uint64
 		ast.Inspect(fn.Body, func(x ast.Node) bool {
@@ -877,16 +971,16 @@ func (g *c07gen) decoder(fnName, p string, sparse bool) {
 			}
 			return true
 		})
-		okBits := len(ls) == 7 && ls[0] == ls[4] && ls[0] == ls[6] && ls[3] == ls[5] && ls[2] == 1
-		get := func(i int) uint64 {
-			if i < len(ls) {
-				return ls[i]
-			}
-			return 0
+		okBits := len(ls) == 7 && ls[2] == 1
+		var bgrp, off, top uint64
+		if okBits { // copies that disagree are reported through the proofs (pick)
+			bgrp, _ = g.pick(p+"BitGroup", []uint64{ls[0], ls[4], ls[6]})
+			off = ls[1]
+			top, _ = g.pick(p+"BitTop", []uint64{ls[3], ls[5]})
 		}
-		g.nat(p+"BitGroup", get(0), okBits, fnName+": bits per byte when reading edge bit j (j/BitGroup, j%BitGroup)")
-		g.nat(p+"BitOff", get(1), okBits, fnName+": offset subtracted from a byte before reading its bits")
-		g.nat(p+"BitTop", get(3), okBits, fnName+": bit position of the first bit of a byte")
+		g.nat(p+"BitGroup", bgrp, okBits, fnName+": bits per byte when reading edge bit j (j/BitGroup, j%BitGroup)")
+		g.nat(p+"BitOff", off, okBits, fnName+": offset subtracted from a byte before reading its bits")
+		g.nat(p+"BitTop", top, okBits, fnName+": bit position of the first bit of a byte")
 		return
 	}
 	g.kSub(fn, p, fnName)
@@ -914,17 +1008,16 @@ func (g *c07gen) decoder(fnName, p string, sparse bool) {
 		}
 		return true
 	})
-	okBits := len(ls) == 4 && ls[0] == ls[3]
-	get := func(i int) uint64 {
-		if i < len(ls) {
-			return ls[i]
-		}
-		return 0
+	okBits := len(ls) == 4
+	var grp, off, top uint64
+	if okBits {
+		grp, _ = g.pick(p+"BitGroup", []uint64{ls[0], ls[3]})
+		off, top = ls[1], ls[2]
 	}
 	g.nat(p+"NumBitsGroup", nb, nbOK, fnName+": bits per byte in numBits")
-	g.nat(p+"BitGroup", get(0), okBits, fnName+": bits per byte in readBit (pos/BitGroup, pos%BitGroup)")
-	g.nat(p+"BitOff", get(1), okBits, fnName+": offset subtracted from a byte before reading its bits")
-	g.nat(p+"BitTop", get(2), okBits, fnName+": bit position of the first bit of a byte")
+	g.nat(p+"BitGroup", grp, okBits, fnName+": bits per byte in readBit (pos/BitGroup, pos%BitGroup)")
+	g.nat(p+"BitOff", off, okBits, fnName+": offset subtracted from a byte before reading its bits")
+	g.nat(p+"BitTop", top, okBits, fnName+": bit position of the first bit of a byte")
 }
 
 // c07fingerprint: ordered calls and statement counts (information only)
@@ -1012,15 +1105,16 @@ func init() {
 		var b strings.Builder
 		b.WriteString("/-! GENERATED by verif/extract (c07.go) from graph/encoding.go on every run — do not edit.\n")
 		b.WriteString("Constants of the graph6 / sparse6 / Multicode codecs, as `def`s and as term macros `gc_<name>` used by\n")
-		b.WriteString("Mamba/Model/Codec.lean. A constant whose shape was not recognised is listed in `notFound` (macro = 0). -/\n")
+		b.WriteString("Mamba/Model/Codec.lean. An item whose shape was not recognised in the source is listed in `notRegenerated` and has its\n")
+		b.WriteString("hand-written default value (then only the correspondence ties it to the code). Nothing may depend on that list. -/\n")
 		b.WriteString("namespace Gen.Codec\n\n")
 		b.WriteString(g.defs.String())
 		q := make([]string, len(g.missing))
 		for i, m := range g.missing {
 			q[i] = strconv.Quote(m)
 		}
-		fmt.Fprintf(&b, "\n/-- constants whose shape in the source was not recognised -/\ndef notFound : List String := [%s]\n", strings.Join(q, ", "))
-		fmt.Fprintf(&b, "def allFound : Bool := %v\n", len(g.missing) == 0)
+		fmt.Fprintf(&b, "\n/-- items whose shape in the source was not recognised: they have their hand-written default value (information only) -/\ndef notRegenerated : List String := [%s]\n", strings.Join(q, ", "))
+		extraFacts["not_regenerated:CodecConsts.lean"] = append([]string{}, g.missing...)
 		b.WriteString("\nend Gen.Codec\n\n")
 		b.WriteString(g.macros.String())
 		return "CodecConsts.lean", b.String()
